@@ -284,6 +284,66 @@ def test_generators():
     eq(c11.ctor_cause(c11.ctor_feats([None, 0], "ock"), "ock"), "plain", "NULL elements do not make an array heterogeneous")
 
 
+def test_nested():
+    """nested navigation: the reference is the composition of the navigations (double-encoded payloads etc.)"""
+    W = {w[0]: w for w in c11.NEST_WRAPPERS}
+    inner = {"k": "inner", "list": ["p", "q"]}
+    doc = {"a": "x", "n": 3, "body": c11.canon(inner), "o": {"a": "Str"}, "t": True, "z": None}
+
+    def ex(wid, p1, p2, op):
+        return c11._nest_expected(W[wid], doc, J.navigate(doc, p1), p2, op)[0]
+
+    # parse_json(v:body::varchar):k::varchar ; ...:list[1]::varchar ; try_parse_json alike
+    eq(ex("parse_json", ("body",), ("k",), "varchar"), "inner", "payload parsed and navigated")
+    eq(ex("parse_json", ("body",), ("list", 1), "varchar"), "q", "payload navigated by index")
+    eq(ex("try_parse_json", ("body",), ("k",), "raw"), "inner", "try_parse_json payload")
+    eq(ex("parse_json", ("body",), ("list",), "array_size"), 2, "array_size of a payload array")
+    expect(ex("parse_json", ("a",), ("k",), "raw") is U, "PARSE_JSON of text that is not JSON raises: not demanded")
+    expect(ex("try_parse_json", ("a",), ("k",), "raw") is M, "TRY_PARSE_JSON of text that is not JSON is NULL")
+    expect(ex("parse_json", ("zz",), ("k",), "varchar") is None, "PARSE_JSON(NULL) is NULL")
+    eq(ex("parse_json", ("n",), (), "raw"), 3, "PARSE_JSON('3') is 3")
+    eq(ex("parse_json", ("o",), ("a",), "varchar"), "Str", "the text of an object parses back to the object")
+    eq(ex("parse_json.trim", ("body",), ("k",), "trim"), "inner", "trim inside and outside")
+    # object_construct('k', v:a::varchar):k::varchar ; uncast value keeps being a JSON value
+    eq(ex("object_construct.text", ("a",), ("k",), "varchar"), "x", "object built from an extracted string")
+    eq(ex("object_construct.text", ("n",), ("k",), "raw"), "3", "the text of a number is a string")
+    expect(ex("object_construct.text", ("n",), ("k",), "int") is U, "string -> int is not demanded")
+    eq(ex("object_construct.raw", ("n",), ("k",), "int"), 3, "object built from an extracted number")
+    eq(ex("object_construct.raw", ("o",), ("k", "a"), "varchar"), "Str", "object built from an extracted object")
+    expect(ex("object_construct.text", ("zz",), ("k",), "raw") is M, "NULL value: pair dropped")
+    expect(ex("object_construct.text", ("o",), ("k",), "raw") is U, "text of a container is not pinned down")
+    eq(ex("array_construct.text", ("a",), (0,), "raw"), "x", "array built from an extracted string")
+    eq(ex("array_literal.raw", ("o",), (0, "a"), "raw"), "Str", "array literal of an extracted object")
+    # iff(v:a::varchar = 'x', v, null):n::int -- here the literal of the check is 'Str'
+    eq(ex("iff.text", ("o", "a"), ("n",), "int"), 3, "branch chosen by an extracted string")
+    expect(ex("iff.text", ("a",), ("n",), "int") is None and ex("iff.text", ("zz",), ("n",), "raw") is M, "condition false / NULL -> NULL")
+    expect(ex("iff.int", ("n",), ("a",), "raw") is M, "3 = 0 is false")
+    expect(ex("iff.int", ("a",), ("a",), "raw") is U, "string cast to int in the condition: not demanded")
+    eq(ex("iff.not", ("t",), ("a",), "raw"), "x", "iff(not true, NULL, v) is v")
+    eq(ex("iff.not", ("zz",), ("a",), "raw"), "x", "iff(not NULL, NULL, v) is v")
+    expect(ex("iff.not", ("a",), ("a",), "raw") is U, "NOT over a string: not demanded")
+    eq(ex("iff.branch", ("o",), ("a",), "varchar"), "Str", "branch holding an extraction")
+    eq(ex("coalesce", ("o",), ("a",), "raw"), "Str", "coalesce(missing, extraction)")
+    expect(ex("coalesce", ("z",), ("a",), "raw") is U, "coalesce over JSON null is not demanded")
+    eq(ex("subquery", ("o",), ("a",), "varchar"), "Str", "path on an extracted subquery column")
+    eq(ex("subquery.parse_json", ("body",), ("list", 0), "raw"), "p", "path on a parsed subquery column")
+    # statements
+    eq(c11._nest_place("inline", "W", "not x")[2:], (" from jn where id in (select id from kk where not x)", "W"), "inline placement")
+    eq(c11._nest_place("subquery", "v:a", single=True), ("", ["t.id"], " from (select id, v:a as c from jn) t", "t.c"), "subquery placement")
+    eq(c11._nest_place("cte", "v:a", single=True), ("with t as (select id, v:a as c from jn) ", ["id"], " from t", "c"), "cte placement")
+    f = c11.nest_feats(W["parse_json"], doc, ("body",), "K", ("k",), "K", "raw", doc["body"], "inner")
+    eq(f, {"nb": "key-bracket-in-bracket-base"}, "bracket in the base of a bracket")
+    f = c11.nest_feats(W["parse_json"], doc, ("body",), "p", ("k",), "p", "varchar", doc["body"], "inner")
+    eq(f, {"w": "parse_json", "ic": "cast", "oc": "cast", "xkind": "str", "res": "value"}, "features of cast in cast")
+    eq(c11.nest_feats(W["subquery"], doc, ("o",), "K", ("a",), "K", "raw", doc["o"], "Str").get("nb"), None, "a subquery column is not a nested base")
+    for tier in ("quick", "thorough"):
+        for w in c11.NEST_WRAPPERS:
+            cs = c11.nest_exprs(w, tier)
+            expect(len(cs) == len(set(cs)) and any(c[3] == "raw" for c in cs), f"{tier} {w[0]}: combos distinct, raw present")
+            expect(all((c[0], c[1], c[2], "raw") in cs for c in cs), f"{tier} {w[0]}: every op has its bare extraction")
+        expect(len({c11.canon(d) for d in c11.nest_docs_for(tier)}) == len(c11.nest_docs_for(tier)), f"{tier} nested documents distinct")
+
+
 def test_oracle_on_synthetic_observations():
     j = c11._judge
     expect(j("json", "Str", ("ok", ['"Str"'])), "right extraction")
@@ -300,7 +360,7 @@ def test_oracle_on_synthetic_observations():
 
 if __name__ == "__main__":
     for t in (test_navigation, test_conversions, test_array_size_flatten_constructors_split, test_3vl, test_matches, test_ops_table,
-              test_generators, test_oracle_on_synthetic_observations):  # fmt: skip
+              test_generators, test_nested, test_oracle_on_synthetic_observations):  # fmt: skip
         print(t.__name__)
         t()
     print("FAILED" if FAILS else "ok", f"({len(FAILS)} failures)")
